@@ -99,7 +99,7 @@ def drive(ctx, args):
 
 def rule_matches(ctx, rule, line_bytes):
     while isinstance(rule, Agg) and rule.ty == "Box":
-        rule = rule.fields[0].loc.get()
+        rule = __import__('mir_exec').box_ref(rule).loc.get()
     f = RULE_FILES.get(rule.ty)
     if f is None:
         raise Unsupported("matches of %s" % rule.ty)
